@@ -1,34 +1,125 @@
-import re,zlib,sys
-exec(open('x.py').read().split("print(len(objs)")[0])
-out=[]
-N=rb'(-?[\d.]+)'
-for n in sorted(objs):
-    o=objs[n]; s=stream(o)
-    if not s or b'BT' not in s or b'begincmap' in s: continue
-    cur={}; key=None; cmy=0; afterTm=False
-    pat=re.compile(rb'/(\S+) [\d.]+ Tf|\[((?:\\.|[^\]])*?)\]\s*TJ|\(((?:\\.|[^\\)])*)\)\s*Tj|<([0-9A-Fa-f]+)>\s*Tj|'+N+rb' '+N+rb' T[dD]|'+N+b' '+N+b' '+N+b' '+N+b' '+N+b' '+N+rb' (Tm|cm)|(BT)',re.S)
-    def dec(h):
-        w=4 if cur and max(cur)>255 else 2
-        return ''.join(cur.get(int(h[i:i+w],16),'?') for i in range(0,len(h),w))
-    for tok in pat.finditer(s):
-        if tok.group(1): cur=fontname.get(tok.group(1),{})
-        elif tok.group(2) is not None:
-            for p in re.finditer(rb'<([0-9A-Fa-f]+)>|\(((?:\\.|[^\\)])*)\)',tok.group(2)):
-                if p.group(1): out.append(dec(p.group(1).decode()))
-                else:
-                    b=re.sub(rb'\\(.)',lambda m:m.group(1),p.group(2))
-                    out.append(''.join(cur.get(ch,chr(ch)) for ch in b))
-        elif tok.group(3) is not None:
-            b=re.sub(rb'\\(.)',lambda m:m.group(1),tok.group(3))
-            out.append(''.join(cur.get(ch,chr(ch)) for ch in b))
-        elif tok.group(4): out.append(dec(tok.group(4).decode()))
-        elif tok.group(5) is not None:
-            if afterTm:
-                k=(cmy,float(tok.group(6)))
-                if k!=key: out.append('\n')
-                key=k; afterTm=False
-        elif tok.group(14): out.append(' ')
-        elif tok.group(13)==b'Tm': afterTm=True
-        elif tok.group(13)==b'cm': cmy=float(tok.group(12))
-    out.append('\n=====PAGE=====\n')
-print(''.join(out))
+#!/usr/bin/env python3
+"""Minimal PDF text extractor (no dependencies) used to read docs/TLPrimer.pdf and
+docs/TL2Primer.pdf in a sandbox without poppler.  Usage:
+
+    python3 pdf_extract.py /repo/docs/TL2Primer.pdf [--word-spaces] > out.txt
+
+--word-spaces inserts a space at every BT operator (needed for TLPrimer.pdf, where
+each word is its own text object and spaces are not encoded as glyphs).
+"""
+import re
+import sys
+import zlib
+
+
+def main():
+    path = sys.argv[1]
+    word_spaces = "--word-spaces" in sys.argv[2:]
+    data = open(path, "rb").read()
+    objs = {}
+    for m in re.finditer(rb"(\d+) 0 obj(.*?)endobj", data, re.S):
+        objs[int(m.group(1))] = m.group(2)
+
+    def stream(o):
+        m = re.search(rb"stream\r?\n(.*?)\r?\nendstream", o, re.S)
+        if not m:
+            return None
+        s = m.group(1)
+        if b"FlateDecode" in o:
+            try:
+                s = zlib.decompress(s)
+            except Exception:
+                try:
+                    s = zlib.decompressobj().decompress(s)
+                except Exception:
+                    return None
+        return s
+
+    # ToUnicode CMaps
+    cmaps = {}
+    for n, o in objs.items():
+        s = stream(o)
+        if s and b"begincmap" in s:
+            mp = {}
+            for blk in re.finditer(rb"beginbfchar(.*?)endbfchar", s, re.S):
+                for a, b in re.findall(rb"<([0-9A-Fa-f]+)>\s*<([0-9A-Fa-f]+)>", blk.group(1)):
+                    mp[int(a, 16)] = bytes.fromhex(b.decode()).decode("utf-16-be", "ignore")
+            for blk in re.finditer(rb"beginbfrange(.*?)endbfrange", s, re.S):
+                for a, b, c in re.findall(
+                    rb"<([0-9A-Fa-f]+)>\s*<([0-9A-Fa-f]+)>\s*<([0-9A-Fa-f]+)>", blk.group(1)
+                ):
+                    a, b, c = int(a, 16), int(b, 16), int(c, 16)
+                    for i in range(a, b + 1):
+                        mp[i] = chr(c + i - a)
+            cmaps[n] = mp
+    fontobj = {}
+    for n, o in objs.items():
+        m = re.search(rb"/ToUnicode (\d+) 0 R", o)
+        if m:
+            fontobj[n] = int(m.group(1))
+    fontname = {}
+    for n, o in objs.items():
+        for m in re.finditer(rb"/(F\d+|TT\d+|[A-Za-z0-9_+]+) (\d+) 0 R", o):
+            k = int(m.group(2))
+            if k in fontobj:
+                fontname[m.group(1)] = cmaps.get(fontobj[k], {})
+
+    out = []
+    N = rb"(-?[\d.]+)"
+    pat = re.compile(
+        rb"/(\S+) [\d.]+ Tf|\[((?:\\.|[^\]])*?)\]\s*TJ|\(((?:\\.|[^\\)])*)\)\s*Tj|<([0-9A-Fa-f]+)>\s*Tj|"
+        + N + rb" " + N + rb" T[dD]|"
+        + N + b" " + N + b" " + N + b" " + N + b" " + N + b" " + N + rb" (Tm|cm)|(BT)",
+        re.S,
+    )
+    for n in sorted(objs):
+        s = stream(objs[n])
+        if not s or b"BT" not in s or b"begincmap" in s:
+            continue
+        cur = {}
+        key = None
+        cmy = 0.0
+        after_tm = False
+
+        def dec(h):
+            w = 4 if cur and max(cur) > 255 else 2
+            return "".join(cur.get(int(h[i:i + w], 16), "?") for i in range(0, len(h), w))
+
+        for tok in pat.finditer(s):
+            if tok.group(1):
+                cur = fontname.get(tok.group(1), {})
+            elif tok.group(2) is not None:
+                for p in re.finditer(rb"<([0-9A-Fa-f]+)>|\(((?:\\.|[^\\)])*)\)", tok.group(2)):
+                    if p.group(1):
+                        out.append(dec(p.group(1).decode()))
+                    else:
+                        b = re.sub(rb"\\(.)", lambda m: m.group(1), p.group(2))
+                        out.append("".join(cur.get(ch, chr(ch)) for ch in b))
+            elif tok.group(3) is not None:
+                b = re.sub(rb"\\(.)", lambda m: m.group(1), tok.group(3))
+                out.append("".join(cur.get(ch, chr(ch)) for ch in b))
+            elif tok.group(4):
+                out.append(dec(tok.group(4).decode()))
+            elif tok.group(5) is not None:
+                if after_tm:
+                    k = (cmy, float(tok.group(6)))
+                    if k != key:
+                        out.append("\n")
+                    key = k
+                    after_tm = False
+            elif tok.group(14):
+                if word_spaces:
+                    out.append(" ")
+            elif tok.group(13) == b"Tm":
+                after_tm = True
+            elif tok.group(13) == b"cm":
+                cmy = float(tok.group(12))
+        out.append("\n=====PAGE=====\n")
+    text = "".join(out)
+    if word_spaces:
+        text = re.sub(r"  +", " ", text)
+    sys.stdout.write(text)
+
+
+if __name__ == "__main__":
+    main()
